@@ -8,6 +8,7 @@ import WD.Proofs.Pipeline.FlatSpec
 import WD.Proofs.Pipeline.BurstFiles
 import WD.Proofs.Pipeline.BurstFlat
 import WD.Proofs.Pipeline.BurstGrow
+import WD.Proofs.Pipeline.Paced
 /-
   `_partial`: all initial trees, all histories of valid operations, recursive watch, in the regime "the stream
   drains after every operation"; library threads other than the inotify reader (their interplay is C04–C06, C12)
@@ -112,6 +113,16 @@ theorem no_crash_growth_burst_partial (fs0 : FS) (hwf : fs0.WF) (full : Bool) (p
     (((Sys.start fs0 true full).run pre).1.burst burst).1.stopped = false := by
   obtain ⟨inv, hs, hc⟩ := after_history fs0 hwf full pre hv hroot
   obtain ⟨_, h2, h3, _⟩ := burst_grow _ burst inv hs hc hb
+  exact ⟨h3, h2⟩
+
+
+/-- over PACED histories (single operations of any kind other than removing the root, bursts of file operations, nested
+    creation bursts, each burst read as one batch) the reader never crashes and the emitter never stops -/
+theorem no_crash_paced_partial (fs0 : FS) (hwf : fs0.WF) (full : Bool) (bs : List (List Op))
+    (hb : pacedOK (Sys.start fs0 true full) bs) :
+    ((Sys.start fs0 true full).runBursts bs).1.crashed = false ∧ ((Sys.start fs0 true full).runBursts bs).1.stopped = false := by
+  obtain ⟨inv, hs, hc, _, _⟩ := start_rec fs0 hwf full
+  obtain ⟨_, h2, h3, _⟩ := paced_run bs _ inv hs hc hb
   exact ⟨h3, h2⟩
 
 end WD.C07
